@@ -5,6 +5,7 @@ import ast
 from typing import Dict, List, Optional, Tuple
 
 from ..core import Ctx
+from ..loader import AnalysisError
 from ..symex import SUMMARIZER, expand, strip_ifexp_paths, u
 
 MA = "matrix/assembler.py"
@@ -337,12 +338,41 @@ def exceptions(ctx: Ctx):
 
 def collator(ctx: Ctx):
     sv = ctx.repo.cls(COL, "SortByValueCollator")
+    from ..stmts import match_any, reachable_functions
+
     for member, vals in (("_body_idxs", "self._element_values"), ("_subtotal_idxs", "self._subtotal_values")):
-        m = ctx.repo.lookup(sv, member)
-        src = ast.unparse(m.node)
-        ok_bucket = "group = nans if self._is_nan(val) else keys" in src
-        ok_sort = "return tuple((idx for _, idx in sorted(keys, reverse=self._descending) + nans))" in src
-        ctx.ob("nan-bucket", f"{COL}::SortByValueCollator.{member}", f"NaN bucket: {ok_bucket}; sorted keys then NaNs, reverse=descending: {ok_sort}", "NaN-valued items after the sorted ones, in payload order; reverse iff descending", ok_bucket and ok_sort)
+        where = f"{COL}::SortByValueCollator.{member}"
+        fns = reachable_functions(ctx.repo, sv, member)
+        if not fns:
+            raise AnalysisError(f"SortByValueCollator.{member} vanished")
+        sorts = [n for f in fns for n in ast.walk(f) if isinstance(n, ast.Call) and u(n.func) == "sorted"]
+        revs = [k.value for c in sorts for k in c.keywords if k.arg == "reverse"]
+        if not sorts:
+            ctx.undecided("nan-bucket.direction", where, "no sorted(...) call found", "sorted(keys, reverse=self._descending)")
+        elif not revs:
+            ctx.violated("nan-bucket.direction", where, [u(c)[:60] for c in sorts], "sorted(keys, reverse=self._descending)", "the direction of the order transform is not applied")
+        else:
+            ok, why = match_any(revs, ["self._descending"])
+            ctx.ob("nan-bucket.direction", where, [u(r) for r in revs], "reverse=self._descending", ok, why or "reverse iff descending")
+        # NaN-valued items AFTER the sorted ones: `sorted(keys) + nans` where nans is the group chosen by _is_nan
+        nan_groups, key_groups = set(), set()
+        for f in fns:
+            for n in ast.walk(f):
+                if isinstance(n, ast.IfExp) and "_is_nan(" in u(n.test) and isinstance(n.body, ast.Name) and isinstance(n.orelse, ast.Name):
+                    neg = isinstance(n.test, ast.UnaryOp) and isinstance(n.test.op, ast.Not)
+                    nan_groups.add(n.orelse.id if neg else n.body.id)
+                    key_groups.add(n.body.id if neg else n.orelse.id)
+        verdict = None
+        seen_concat = []
+        for f in fns:
+            for n in ast.walk(f):
+                if isinstance(n, ast.BinOp) and isinstance(n.op, ast.Add) and ("sorted(" in u(n.left) or "sorted(" in u(n.right)):
+                    seen_concat.append(u(n)[:80])
+                    if "sorted(" in u(n.left) and isinstance(n.right, ast.Name) and n.right.id in nan_groups:
+                        verdict = True
+                    elif "sorted(" in u(n.right) and isinstance(n.left, ast.Name) and n.left.id in nan_groups:
+                        verdict = False
+        ctx.ob("nan-bucket", where, f"NaN group(s) {sorted(nan_groups)}; concatenation {seen_concat}", "sorted(non-NaN items) + NaN items (payload order)", verdict, "NaN-valued items after the sorted ones, in payload order")
     e = expand(ctx.repo, sv, "_descending", stop=lambda mm: True)
     ctx.check_expr("direction", f"{COL}::SortByValueCollator._descending", e, "self._order_spec.descending")
     os_ = ctx.repo.cls("dimension.py", "_OrderSpec")
